@@ -37,6 +37,15 @@ fn names_with_local_scope<'a>(a: &'a A, local: &Scope, out: &mut Vec<(&'a A, boo
     }
 }
 
+/// can the expanded name be written at all in this scope (for its kind)?
+fn expressible(scope: &Scope, ns: &str, is_attr: bool) -> bool {
+    if ns.is_empty() {
+        // no prefix: attributes always; elements only where no default namespace is in force
+        return is_attr || scope.get("").map(|u| u.is_empty()).unwrap_or(true);
+    }
+    scope.iter().any(|(p, u)| u == ns && (!p.is_empty() || !is_attr))
+}
+
 pub fn eval(case: &Case) -> Vec<Fail> {
     let mut st = Stats::default();
     eval_case(case, &mut st)
@@ -155,8 +164,11 @@ pub fn eval_case(case: &Case, st: &mut Stats) -> Vec<Fail> {
                     }
                 }
                 Ok(Ok(None)) => fails.push(Fail::new(format!("node_name_ref|{}|none", kind), show())),
-                Ok(Err(_)) => {
+                Ok(Err(e)) => {
                     st.bump("name_ref_err");
+                    if expressible(scope, &expanded.0, is_attr) {
+                        fails.push(Fail::new(format!("node_name_ref|{}|refused-although-a-prefix-is-in-scope", kind), format!("node_name_ref of {} #{} in {}: {:?} although scope {:?} can express {:?}", kind, i, show(), e, scope, expanded)));
+                    }
                 }
             }
             // name_ref(name, context)
@@ -173,7 +185,11 @@ pub fn eval_case(case: &Case, st: &mut Stats) -> Vec<Fail> {
                         ));
                     }
                 }
-                Ok(Err(_)) => {}
+                Ok(Err(e)) => {
+                    if expressible(scope, &expanded.0, is_attr) {
+                        fails.push(Fail::new(format!("name_ref|{}|refused-although-a-prefix-is-in-scope", kind), format!("name_ref of {} #{} in {}: {:?} although scope {:?} can express {:?}", kind, i, show(), e, scope, expanded)));
+                    }
+                }
             }
             // full_name(node, name)
             let got = catch(|| xot.full_name(h, name_id));
@@ -195,8 +211,11 @@ pub fn eval_case(case: &Case, st: &mut Stats) -> Vec<Fail> {
                         st.bump("full_name_ok");
                     }
                 }
-                Ok(Err(_)) => {
+                Ok(Err(e)) => {
                     st.bump("full_name_err");
+                    if expressible(scope, &expanded.0, is_attr) {
+                        fails.push(Fail::new(format!("full_name|{}|refused-although-a-prefix-is-in-scope", kind), format!("full_name of {} #{} in {}: {:?} although scope {:?} can express {:?}", kind, i, show(), e, scope, expanded)));
+                    }
                 }
             }
         }
@@ -361,6 +380,35 @@ pub fn nth_case(tier: Tier, mut i: u64) -> Case {
 pub fn run(tier: Tier) -> i32 {
     let ctx = Ctx::new("C09", tier, "exploration");
     let (_, _, _, tot) = total(tier);
+    // five-element shape root > r > [a > x, b] over a 12-spec menu (thorough: 24), and unattached single nodes
+    let tiny = if tier == Tier::Quick { tiny_specs() } else { small_specs().into_iter().filter(|s| s.dflt != 2 && s.dflt != 3 && s.name != 2).collect::<Vec<_>>() };
+    let tn = tiny.len() as u64;
+    let five = tn.pow(5);
+    let mut singles: Vec<A> = vec![];
+    for ns in ["", X, XML_NS] {
+        for name in ["k", "id", "space"] {
+            singles.push(A::attr_node(ns, name, "v"));
+        }
+    }
+    for (p, u) in [("", X), ("p", X), ("xml", XML_NS), ("", "")] {
+        singles.push(A::ns_node(p, u));
+    }
+    singles.extend([A::text("t"), A::comment("c"), A::pi("pi", None), A::doc(vec![]), A::doc(vec![A::comment("c")])]);
+    let extra = par_range(&ctx, five + singles.len() as u64, |i, st| {
+        let case = if i < five {
+            let d = mixed(&[tn as usize; 5], i);
+            let specs: Vec<ElemSpec> = d.iter().map(|k| tiny[*k]).collect();
+            Case { tree: layout_tree(4, &specs), attached: true }
+        } else {
+            Case { tree: singles[(i - five) as usize].clone(), attached: false }
+        };
+        let fails = eval_case(&case, st);
+        st.bump(if i < five { "five_element_layouts" } else { "unattached_single_nodes" });
+        st.outcome(&case.tree.canon());
+        for f in fails {
+            st.fail(&case, f);
+        }
+    });
     let stats = par_range(&ctx, tot, |i, st| {
         let case = nth_case(tier, i);
         let fails = eval_case(&case, st);
@@ -375,12 +423,13 @@ pub fn run(tier: Tier) -> i32 {
             st.fail(&case, f);
         }
     });
-    if let Err(e) = require_nonzero(&stats, &["layouts", "full_name_ok", "unresolved_nonempty", "inherited_nonempty"]) {
+    let stats = stats.merge(extra);
+    if let Err(e) = require_nonzero(&stats, &["layouts", "five_element_layouts", "unattached_single_nodes", "full_name_ok", "unresolved_nonempty", "inherited_nonempty"]) {
         eprintln!("MACHINERY: {}", e);
         return 2;
     }
     let cov = json!({
-        "rule": "namespace layouts: 1 element (540 specs: default in {-,X,Y,\"\"} x p in {-,X,Y} x q in {-,X,Y} x element namespace in {none,X,Y} x attribute in {absent, k, {X}k, {Y}k, xml:space}), chains of 2 (540^2), chains of 3 and forks of 3 (quick: reduced 72-spec menu cubed; thorough: 540 x 144 x 144); attached under a document and (1-2 elements) unattached; every node incl. attribute / namespace / document nodes x prefixes {\"\",p,q,xml,r} x namespaces {X,Y,XML,Z}; distinct = distinct canonical layouts (counted over all indices when the space has <= 8M layouts, else over every 97th index: a measured lower bound)",
+        "rule": "namespace layouts: 1 element (540 specs: default in {-,X,Y,\"\"} x p in {-,X,Y} x q in {-,X,Y} x element namespace in {none,X,Y} x attribute in {absent, k, {X}k, {Y}k, xml:space}), chains of 2 (540^2), chains of 3 and forks of 3 (quick: reduced 72-spec menu cubed; thorough: 540 x 144 x 144); the five-element shape root > r > [a > x, b] over a 12-spec menu (thorough: 24); unattached attribute, namespace, text, comment, PI and document nodes (names k / id / space in no namespace, X and the XML namespace); attached under a document and (1-2 elements) unattached; every node incl. attribute / namespace / document nodes x prefixes {\"\",p,q,xml,r} x namespaces {X,Y,XML,Z}; distinct = distinct canonical layouts (counted over all indices when the space has <= 8M layouts, else over every 97th index: a measured lower bound)",
         "total_layouts": tot,
     });
     ctx.finish(stats, cov, vec!["hash iteration order observed, not controlled: results compared as sets / maps".into()])
